@@ -342,7 +342,8 @@ impl Hash for Primitive {
             BigInt(x) => x.hash(state),
             BuiltInFunction(x) => x.hash(state),
             Byte(x) => x.hash(state),
-            Float(x) => integer_decode(*x).hash(state),
+            // `0.0 == -0.0`: equal keys must hash alike
+            Float(x) => integer_decode(if *x == 0.0 { 0.0 } else { *x }).hash(state),
             Function(x) => x.hash(state),
             Map(_) => unimplemented!("you may not use a map as a key"),
             Object(x) => x.hash(state),
